@@ -8,7 +8,7 @@ CONSTANTS
   LenSet = {2}
   MaxCountSet = {0, 1}
   MaxVerifySet = {0, 1, 2}
-  MaxSends = 3
+  MaxSends = 2
 INVARIANTS TypeOK Coupled WindowBound AlphabetCovered
 PROPERTIES VerifiesWhenDue RejectsUnlessDue LimitTruthful SendsBounded RefusalsJustified SendResets
 CONSTRAINT Bound
